@@ -1087,9 +1087,9 @@ Proof.
   intros Hc Hr Hf Hclear Hk. cbn zeta. unfold write_new_object. cbn [init_st st_b].
   assert (listing_empty (list_all (bk_keys bk) cp root true) = Ok true) as ->
     by (apply listing_empty_iff; exact Hclear).
-  pose proof (upload_all_spec (Some k) cp root files bk Hc Hr Hf Hclear) as H.
+  pose proof (upload_all_spec (Some k) cp root files (init_st bk) Hc Hr Hf Hclear) as H.
   cbn zeta in H. destruct (upload_all (Some k) cp root files (init_st bk)) as [r1 s1].
-  cbn [fst snd] in H. destruct H as [(up & -> & Hag & Habs & Hn & Hm) | (-> & Hb & _)].
+  cbn [fst snd init_st st_b st_n] in H. destruct H as [(up & -> & Hag & Habs & Hn & Hm) | (-> & Hb & _)].
   - exfalso. destruct (Hm k eq_refl); lia.
   - cbn [fst snd]. auto.
 Qed.
@@ -1228,7 +1228,7 @@ Proof.
     exists (RPut (join cp (join (nv_root i) name)) ::
             map (fun o => RDelete (join cp o))
                 (filter (fun o => negb (is_path o (new_namaste (nv_root i) (Some (name, content))))) olds)).
-    split; [reflexivity|]. split; [rewrite <- !app_assoc; reflexivity|]. split.
+    split; [reflexivity|]. split; [cbn [app]; rewrite <- !app_assoc; cbn [app]; reflexivity|]. split.
     { constructor; [reflexivity|]. constructor; [reflexivity|]. rewrite Forall_forall. intros r Hin.
       apply in_map_iff in Hin as (p & <- & _). reflexivity. }
     split; [exact Hup|]. split; [|discriminate].
@@ -1240,7 +1240,7 @@ Proof.
     rewrite !put_object_file_none. cbn [st_b st_n st_log fst snd].
     fold (inv_key cp i). fold (sc_key cp i). intros Hok.
     exists [RGet (inv_key cp i); RGet (sc_key cp i)], [].
-    split; [reflexivity|]. split; [rewrite <- !app_assoc; rewrite app_nil_r; reflexivity|]. split; [repeat constructor|].
+    split; [reflexivity|]. split; [cbn [app]; rewrite <- ?app_assoc; rewrite ?app_nil_r; cbn [app]; reflexivity|]. split; [repeat constructor|].
     split; [exact Hup|]. split; [constructor|auto].
 Qed.
 
